@@ -17,7 +17,10 @@ Streams
           (lean/TrackpyV/Model/Relocate.lean — the definitions Props/C14.lean is about): background
           query, ordered candidate list and masses are compared (function mode).  The labelled
           output goes through `FLRUN` (linker monitor, validity only + "an added feature continues a
-          source").
+          source"), and every `next_level` is compared with the model `FindLink.flAlgoStep` (op
+          `FLSTEP`: state rebuilt from the implementation's own labelled levels, relocation oracle :=
+          the recorded return values of this run): emitted positions, added features, sub-nets with
+          a shortage, and - when the optimum is unique - the links.
   call  : `FindLinker.get_relocate_candidates` driven directly on tie-heavy small images (2-D and
           3-D) with planted sources / background features at exact-boundary distances; same
           comparison, plus the call-level oracle.
@@ -69,6 +72,12 @@ ASSUMPTIONS = [
     "apart than separation + 2*search_range + diameter, farther than radius + search_range + 3 "
     "from the border, displacement <= search_range - 1.5 px, noise mass below minmass)",
     "trajectories are compared as partitions (label values are unspecified)",
+    "FLSTEP (model of one next_level): the state is rebuilt from the implementation's own labelled "
+    "levels; the relocation oracle is the table of this run's get_relocate_candidates return values "
+    "keyed by the SET of source positions; steps beyond the neighbour cap / sub-net size limit are "
+    "skipped; links are compared only when the optimum of every sub-net is unique (driver flag "
+    "tied), positions / added features / sub-nets with a shortage always; masses cross the protocol "
+    "rounded (they do not influence the labelling)",
 ]
 MIN_NONTRIVIAL = 20
 
@@ -141,9 +150,18 @@ def render(shape, blobs, noise, offset=0):
 # recording FindLinker.get_relocate_candidates
 
 @contextlib.contextmanager
-def recorded_calls(store):
+def recorded_calls(store, linked=None):
+    """records every get_relocate_candidates call in `store`; with `linked` (a dict) also the
+    coordinates every next_level received (after find_link_iter's own minmass filter)"""
     from trackpy.linking.find_link import FindLinker
     orig = FindLinker.get_relocate_candidates
+    orig_next = FindLinker.next_level
+
+    def next_wrapper(self, coords, t, image, extra_data=None):
+        if linked is not None:
+            linked[int(t)] = [tuple(int(round(float(c))) for c in p) for p in np.asarray(coords)]
+        return orig_next(self, coords, t, image, extra_data)
+    FindLinker.next_level = next_wrapper
 
     def wrapper(self, pos):
         posa = np.atleast_2d(pos)
@@ -163,6 +181,7 @@ def recorded_calls(store):
         yield
     finally:
         FindLinker.get_relocate_candidates = orig
+        FindLinker.next_level = orig_next
 
 
 # ------------------------------------------------------------------------------------------
@@ -837,7 +856,7 @@ def run_find_link(inp, store, log):
 
     from trackpy.linking.utils import SubnetOversizeException
     kw = fl_kwargs(inp)
-    with recorded_calls(store):
+    with recorded_calls(store, log.setdefault("linked", {})):
         try:
             out = tp.find_link(reader, preprocess=inp["preprocess"], before_link=before_link, **kw)
         except ValueError as e:
@@ -896,6 +915,88 @@ def detect_then_link(inp, reader, log):
     return frozenset(frozenset(v) for v in d.values())
 
 
+def flstep_compare(ctx, res, inp, levels, log, store):
+    """One FindLinker.next_level at a time against the model Model/FindLinkAlgo.lean (op FLSTEP):
+    the state is rebuilt from the implementation's own labelled levels, the relocation oracle is
+    instantiated with what get_relocate_candidates returned in this run.  Compared: the emitted
+    positions, which of them were added, and (when the optimum is unique) which trajectory every
+    feature continues.  Returns True if a violation was recorded."""
+    cfg = linkcommon.cfg_tokens(dict(sr=inp["sr"], memory=inp["memory"]), opt=False)
+
+    def pts_s(pts):
+        return " ".join(",".join(str(int(c)) for c in p) for p in pts)
+
+    used = set()
+    for k, (t, pts, labels, _) in enumerate(levels):
+        if k == 0:
+            used |= set(labels)
+            continue
+        if t not in log["linked"]:
+            # frame never reached next_level
+            used |= set(labels)
+            continue
+        handed = log["linked"][t]
+        line = ["FLSTEP " + cfg]
+        for (t2, p2, l2, _) in levels[:k]:
+            line.append("t=%d | %s | %s" % (t2, pts_s(p2), " ".join(map(str, l2))))
+        line.append("CUR t=%d | %s" % (t, pts_s(handed)))
+        for rec in store:
+            if rec["t"] != t:
+                continue
+            cands = [] if rec["coords"] is None else rec["coords"].tolist()
+            ms = [] if rec["coords"] is None else [max(0, int(round(float(v)))) for v in rec["mass"]]
+            line.append("ORC %s | %s | %s" % (pts_s(np.rint(rec["pos"]).astype(int).tolist()),
+                                               pts_s(cands), " ".join(map(str, ms))))
+        resp = ctx.ask(" ; ".join(line))
+        if not resp.startswith("ok"):
+            raise RuntimeError("FLSTEP: " + resp)
+        m = common.kv(resp)
+        res.stat("flstep_steps")
+        if m["capped"] == "1" or m["oversize"] == "1":
+            res.stat("flstep_capped_or_oversize")
+            used |= set(labels)
+            continue
+        mp = [tuple(int(c) for c in q.split(",")) for q in m["dsts"].split(";") if q]
+        ml = [int(x) for x in m["labels"].split(",") if x]
+        madd = {mp[int(i)] for i in m["added"].split(",") if i}
+        fresh = int(m["fresh"])
+        rp = [tuple(p) for p in pts]
+        hs = set(tuple(h) for h in handed)
+        radd = {p for p in rp if p not in hs}
+        res.stat("flstep_merged_subnets", int(m["merged"]))
+        res.stat("flstep_short_subnets", int(m["short"]))
+        why = None
+        if m["miss"] != "0" or m["unused"] != "0":
+            why = ("sub-nets with a shortage differ: %s relocation call(s) of the model were never made "
+                   "by the code, %s of the code's never by the model" % (m["miss"], m["unused"]))
+        elif sorted(mp) != sorted(rp):
+            why = "emitted positions differ"
+        elif madd != radd:
+            why = "added features differ"
+        elif m["tied"] == "1":
+            res.stat("flstep_tied")
+        else:
+            real = {p: (l if l in used else "new") for p, l in zip(rp, labels)}
+            mod = {p: (l if l < fresh else "new") for p, l in zip(mp, ml)}
+            if real != mod:
+                why = "links differ although the optimum is unique"
+            else:
+                res.stat("flstep_links_compared")
+                if radd:
+                    res.stat("flstep_with_added")
+        if why is not None:
+            res.violation("correspondence-break",
+                          "find_link level t=%d differs from FindLink.flAlgoStep (%s); the direct "
+                          "oracle accepts the output" % (t, why),
+                          impl=dict(points=rp, labels=labels, added=sorted(radd)),
+                          model=dict(points=mp, labels=ml, added=sorted(madd), resp=resp),
+                          broken="FindLinkAlgo.flAlgoStep",
+                          signature=dict(what="flstep-differs", detail=why.split(":")[0]))
+            return True
+        used |= set(labels)
+    return False
+
+
 def run_movie_case(ctx, inp):
     res = Result()
     par = params_of(inp)
@@ -950,6 +1051,9 @@ def run_movie_case(ctx, inp):
                       "level %s although the direct oracle accepts it" % m.get("step"),
                       impl=[(t, p, l) for (t, p, l, _) in levels], model=m, broken="Relocate.flStep",
                       signature=dict(what="monitor-rejects"))
+        return res
+    # ---- 2b. function mode for the labelling: every next_level against FindLink.flAlgoStep
+    if flstep_compare(ctx, res, inp, levels, log, store):
         return res
     # ---- 3. recovery / detect-then-link (sep regime only)
     if inp["regime"] == "sep":
